@@ -187,7 +187,7 @@ Definition apply_wreqs (rs : list wreq) (m : mem) : mem := fold_left apply_wreq 
 (** --- scalar loads (timing) ------------------------------------------- *)
 Definition smem_size (op : N) : option N :=
   if op =? 0 then Some 4 else if op =? 1 then Some 8 else if op =? 2 then Some 16
-  else if op =? 3 then Some 32 else None.                 (* s_load_dwordx16: panic in timing *)
+  else if op =? 3 then Some 32 else if op =? 4 then Some 64 else None.
 
 (** the loop of executeSMEMLoad: (address, byte size, first destination SGPR) *)
 Fixpoint smem_pieces (fuel : nat) (start curr left dst : N) : list (N * N * N) :=
@@ -206,10 +206,13 @@ Definition smem_wb (m : mem) (p : N * N * N) : option (list (N * N)) :=
   if (n <? rc * 4)%nat then None
   else Some (map (fun k => (dst + N.of_nat k, le32 (firstn 4 (skipn (4 * k) d)))) (seq 0 rc)).
 
+(** both modes drop the two low bits of base+offset *)
+Definition smem_align (a : N) : N := (a / 4) * 4.
+
 Definition timing_smem (op start dst : N) (m : mem) : option (list (N * N)) :=
   match smem_size op with
   | None => None
-  | Some sz => collect (smem_wb m) (smem_pieces (S (N.to_nat sz)) start start sz dst)
+  | Some sz => collect (smem_wb m) (smem_pieces (S (N.to_nat sz)) (smem_align start) (smem_align start) sz dst)
   end.
 
 End Line.
@@ -254,7 +257,7 @@ Definition emu_smem_size (op : N) : option N :=
 Definition emu_smem (op start dst : N) (m : mem) : option (list (N * N)) :=
   match emu_smem_size op with
   | None => None
-  | Some sz => let buf := read m start (N.to_nat sz) in
+  | Some sz => let buf := read m ((start / 4) * 4) (N.to_nat sz) in
                Some (map (fun k => (dst + N.of_nat k, dword_of buf k)) (seq 0 (N.to_nat sz / 4)))
   end.
 
@@ -349,7 +352,7 @@ Definition scheck (c : scase) : N :=
   let m := win_mem (sc_base c) (sc_mem c) in
   let s0 := apply_s (sc_pre c) ssentinel in
   let e := omap (fun ws => observe_s (apply_s ws s0)) (emu_smem (sc_op c) (sc_start c) (sc_dst c) m) in
-  let ps := omap (fun sz => smem_pieces (sc_lg c) (S (N.to_nat sz)) (sc_start c) (sc_start c) sz (sc_dst c)) (smem_size (sc_op c)) in
+  let ps := omap (fun sz => smem_pieces (sc_lg c) (S (N.to_nat sz)) (smem_align (sc_start c)) (smem_align (sc_start c)) sz (sc_dst c)) (smem_size (sc_op c)) in
   let t := omap (fun ws => observe_s (apply_s ws s0)) (timing_smem (sc_lg c) (sc_op c) (sc_start c) (sc_dst c) m) in
   (if oeqb (leqb N.eqb) e (sc_emu c) then 0 else 1) +
   (if oeqb (leqb li_eqb) ps (sc_pieces c) then 0 else 2) +
